@@ -28,6 +28,9 @@ type plan struct {
 	levelP   int
 	keyLvlQ  int
 	encPk    bool
+	// extended ("x/") families only, zero for the original cases (see ext.go)
+	aliasLast bool   // EvaluateMany: the last receiver is the input ciphertext
+	x         *xprog // nil for the original cases
 }
 
 func (p plan) isSeq() bool  { return p.mode == mSeq || p.mode == mSeqNew }
@@ -38,13 +41,19 @@ func (p plan) isNew() bool {
 
 var modeTable = []string{mEval, mEval, mEvalIn, mEvalIn, mEvalNew, mEvalNew, mMany, mManyNew, mSeq, mSeqNew}
 
+// the extended cases put more weight on the modes that have extended call forms
+var xModeTable = []string{mEval, mEval, mEvalIn, mEvalNew, mMany, mMany, mMany, mManyNew, mSeq, mSeq, mSeqNew}
+
 // samplePlan draws one program. n = matrix dimension (columns), bigN: ring degree >= 512 (limits
 // the number of keys of the naive algorithm).
-func samplePlan(r *eng.Rand, pi int, logCols, maxLevel, maxLevelP int, bigN bool, rescales bool, allowPerm bool) plan {
+func samplePlan(r *eng.Rand, pi int, logCols, maxLevel, maxLevelP int, bigN bool, rescales bool, allowPerm bool, modes ...string) plan {
 	n := 1 << logCols
 	var p plan
 	p.logCols = logCols
-	p.mode = modeTable[(pi*3+r.N(len(modeTable)))%len(modeTable)]
+	if len(modes) == 0 {
+		modes = modeTable
+	}
+	p.mode = modes[(pi*3+r.N(len(modes)))%len(modes)]
 	nlt := 1
 	if p.isMany() {
 		nlt = 2 + r.N(3)
@@ -178,6 +187,9 @@ func (p plan) levelsOf(rescales bool, perRescale int) (lv []int, final int, ok b
 			}
 			return p.lts[i].levelQ
 		}
+		if p.aliasLast && i == len(p.lts)-1 {
+			return p.ctLevel
+		}
 		return p.outLevel
 	}
 	if !p.isSeq() {
@@ -229,6 +241,11 @@ func (p plan) nontrivial() bool {
 	}
 	return false
 }
+
+// sigPAboveQ (+"|panic"): MultiplyByDiagMatrix and MultiplyByDiagMatrixBSGS take the P half of the
+// c0 accumulator from the Q half of a scratch polynomial (BuffQP[5].Q), which has MaxLevelQ+1 rows:
+// any transformation whose LevelP exceeds MaxLevelQ (more P than Q primes) indexes past it.
+const sigPAboveQ = "C12|common/lintrans.Evaluator.MultiplyByDiagMatrix(BSGS)|levelP-above-max-levelQ"
 
 const (
 	sigDiag0   = "C12|common/lintrans.Evaluator.MultiplyByDiagMatrix|wrong-value|only-diagonal-0-naive"
